@@ -1319,6 +1319,11 @@ func (s *Server) handleInputCommand(client *Client, msg *Message) error {
 							panic(v)
 						}
 					}
+					if lfs, ok := err.(liveFenceSwitches); ok {
+						// a fence that was about to go live and will not: its
+						// WHEREEVAL interpreters go back to the pool
+						lfs.Close()
+					}
 					res = NOMessage
 					err = errTimeout
 				}
